@@ -1,4 +1,5 @@
 ---- MODULE MC_AcmodPipe ----
 EXTENDS AcmodPipeImpl
 View == s
+KeepIdx == FALSE
 ====
